@@ -73,6 +73,9 @@ pub fn exec(line: &str) -> String {
             }
             None => "bad-request".to_string(),
         },
-        _ => "bad-request".to_string(),
+        _ => match crate::ops_access::exec(f.as_slice()) {
+            Some(r) => r,
+            None => "bad-request".to_string(),
+        },
     }
 }
